@@ -89,14 +89,35 @@ fn gen_dist(r: &mut Xo) -> (Dist, usize) {
             };
             let mx = match r.below(3) {
                 0 => st.abs() + r.unit_f64(),
-                1 => *r.pick(&[0.9, 0.3, 1.1, 0.1, 2.0 / 3.0, 1.0, 1.0e-3]),
+                1 => *r.pick(&[0.9, 0.3, 1.1, 0.1, 2.0 / 3.0, 1.0, 1.0e-3, 0.49999999999999994, 0.5, 1.4999999999999998, 1.5, 2.5]),
                 _ => r.unit_f64() * 10.0,
             };
             (st, mx)
         } else {
             (
                 *r.pick(&[0.0, 0.0, 0.0, 1.0, -1.0, 1.0e6, f64::NAN, f64::INFINITY, f64::NEG_INFINITY, f64::MAX]),
-                *r.pick(&[0.0, 0.0, 0.0, 1.0, 1000.0, 1.0e-300, 1.0e-20, f64::EPSILON, f64::MIN_POSITIVE, f64::NAN, f64::INFINITY, f64::NEG_INFINITY, f64::MAX, -1.0]),
+                *r.pick(&[
+                    0.0,
+                    0.0,
+                    0.0,
+                    1.0,
+                    1000.0,
+                    1.0e-300,
+                    1.0e-20,
+                    f64::EPSILON,
+                    f64::MIN_POSITIVE,
+                    f64::NAN,
+                    f64::INFINITY,
+                    f64::NEG_INFINITY,
+                    f64::MAX,
+                    -1.0,
+                    // where the conversion of the sample to whole microseconds / counts is delicate
+                    0.49999999999999994,
+                    4503599627370497.0, // 2^52 + 1
+                    9007199254740991.0, // 2^53 - 1
+                    9007199254740993.0, // 2^53 + 1 (not representable: 2^53)
+                    18446744073709551615.0, // 2^64
+                ]),
             )
         };
         let d = Dist::new(dt, start, max);
@@ -234,20 +255,36 @@ impl Prop for C13 {
                     s0.action = Some(Action::BlockOutgoing { bypass: false, replace: false, timeout: d, duration: d, limit: Some(d) });
                     let m = [Machine::new(u64::MAX, 0.0, u64::MAX, 0.0, vec![s0]).map_err(|e| ("C13/validated-dist-rejected-in-machine".to_string(), format!("{e}")))?];
                     let mut fw = Framework::new(&m[..], 0.0, 0.0, VClock(0), rng.clone()).map_err(|e| ("C13/framework-new".to_string(), format!("{e}")))?;
+                    // a sample is at most max, hence the whole number it is used as is at most round(max)
+                    let bound = if d.max > 0.0 { d.max.round() as u64 } else { u64::MAX };
+                    let lim = fw.verif_snapshot().machines[0].state_limit;
+                    if lim > bound {
+                        return Err(("C13/used-value-over-max/limit".into(), format!("the state limit sampled from the distribution is {lim}, its max is {}", d.max)));
+                    }
                     for i in 0..3 {
                         let acts = trigger(&mut fw, &[TriggerEvent::NormalSent], VClock(i));
                         for a in acts {
                             if a.timeout > 86_400_000_000 || a.duration > 86_400_000_000 {
                                 return Err(("C13/consumer-over-one-day".into(), format!("{a:?}")));
                             }
+                            if a.timeout > bound || a.duration > bound {
+                                return Err(("C13/used-value-over-max/timeout-or-duration".into(), format!("{a:?} although the distribution's max is {}", d.max)));
+                            }
                         }
+                    }
+                    if d.max > 0.0 {
+                        out.bump("framework_consumers_with_a_max_checked_against_round(max)");
                     }
                     Ok(())
                 }
                 1 => {
                     let c = Counter::new_dist(Operation::Set, d);
                     let mut g = rng.clone();
-                    let _ = c.sample_value(&mut g);
+                    let v = c.sample_value(&mut g);
+                    let bound = if d.max > 0.0 { d.max.round() as u64 } else { u64::MAX };
+                    if v > bound {
+                        return Err(("C13/used-value-over-max/counter".into(), format!("the counter operand sampled from the distribution is {v}, its max is {}", d.max)));
+                    }
                     Ok(())
                 }
                 _ => {
